@@ -493,13 +493,12 @@ STRATS = {"yearsorted": yearsorted_cases, "gmst": gmst_cases, "rate": rate_cases
           "apparent": apparent_cases}
 
 def tasks(tier, seed):
-    ys = list(range(Y_MIN, Y_MAX + 1))
     nf = 1 if tier == "quick" else 4
     k = 1 if tier == "quick" else 3
     out = []
     for clause, nsh in (("dow", 8), ("doy", 9), ("doy2date", 5), ("yearfrac", 12)):
         for i in range(nsh * k):
-            out.append(Task("t_years", clause=clause, years=ys[i::nsh * k], nf=nf))
+            out.append(Task("t_years", clause=clause, shard=i, of=nsh * k, nf=nf))
     mult = 1 if tier == "quick" else 30
     plan = {"yearsorted": (3, 2500), "gmst": (4, 2500), "rate": (4, 2000), "apparent": (4, 1000)}
     for clause, (shards, n) in plan.items():
@@ -509,8 +508,9 @@ def tasks(tier, seed):
     return out
 
 
-def t_years(rec, clause, years, nf=1):
-    for y in years:
+def t_years(rec, clause, shard, of, nf=1):
+    """Years Y_MIN + shard, Y_MIN + shard + of, ... (all years are covered by the `of` shards)."""
+    for y in range(Y_MIN + shard, Y_MAX + 1, of):
         rec.case(clause, {"year": y} if nf == 1 else {"year": y, "nf": nf})
 
 
